@@ -6,6 +6,7 @@
 import DtnVerif.Lemmas.TcpclEsc
 import DtnVerif.Lemmas.TcpclRx
 import DtnVerif.Lemmas.TcpclFrame
+import DtnVerif.Lemmas.TcpclDecodeWF
 namespace DtnVerif
 namespace Tcpcl
 
@@ -32,6 +33,22 @@ theorem C17_no_escape (cfg : Cfg) (hp : cfg.privExt = false) (evs : List Ev) :
 theorem C17_rx_spec (cfg : Cfg) (evs : List Ev) :
     (runEp { cfg := cfg } evs).rxLog = deliver (runEp { cfg := cfg } evs).processed :=
   (rxInv_run evs _ (rxInv_init cfg)).1
+
+/-- **The handlers only ever see in-range values**: whatever octets the peer sends and however they are
+    chunked, every message handed to `recv_message` has every field below the bound of its wire field
+    (lengths and transfer ids < 2^64, flags and reason codes < 256, …), and the data carried by all
+    messages handled so far is no more than the octets received so far. -/
+theorem C17_handled_wf (cfg : Cfg) (evs : List Ev) :
+    (∀ m ∈ (runEp { cfg := cfg } evs).processed, m.WF)
+    ∧ sumData (runEp { cfg := cfg } evs).processed ≤ (runEp { cfg := cfg } evs).rxBytes.length := by
+  obtain ⟨-, hpre, -⟩ := frameInv_run evs _ (frameInv_init cfg)
+  obtain ⟨w, l⟩ := feed_wf {} (runEp { cfg := cfg } evs).rxBytes
+  refine ⟨fun m hm => w m (hpre.subset hm), ?_⟩
+  obtain ⟨rest, hrest⟩ := hpre
+  have : sumData (feed {} (runEp { cfg := cfg } evs).rxBytes).2
+      = sumData (runEp { cfg := cfg } evs).processed + sumData rest := by rw [← hrest, sumData_append]
+  have h0 : ({} : Rx).buf.length = 0 := rfl
+  omega
 
 /-- a peer message that is out of place in the current state -/
 def OutOfPlace (e : Ep) : Msg → Prop
